@@ -100,5 +100,6 @@ impl Strategy for Bfs {
 
     fn reset(&mut self) {
         self.states_queue.clear();
+        self.stats = McStats::default();
     }
 }
